@@ -1377,8 +1377,10 @@ func (tx *tx) mayRollback(err error) error {
 
 // mayCommit may commit a transaction depending on the given transaction mode.
 func (tx *tx) mayCommit() error {
-	// Only commit if each file is wrapped in a transaction.
-	if tx.tx != nil && !tx.dryRun && tx.mode == txModeFile {
+	// Only commit if each file is wrapped in a transaction. Unless one transaction spans all
+	// files, an open transaction belongs to the current file, either by the global mode or by
+	// the file's own txmode directive.
+	if tx.tx != nil && !tx.dryRun && tx.mode != txModeAll {
 		return tx.commit()
 	}
 	return nil
